@@ -238,7 +238,9 @@ class Engine:
                 names = list(d)
             per.append((c, d))
         if names is None:
-            names = ['']
+            # the contract expression could not be evaluated on any path (typically on an infeasible path that a timed-out
+            # feasibility query failed to prune): not a verdict about the code
+            raise OutOfSubset('contract expression not evaluable on this path: ' + '; '.join(sorted(set(notes)))[:300])
         res = {}
         for n in names:
             terms = []
